@@ -254,3 +254,106 @@ def conc_replay(world, rp):
 
 PROFILES['conc'] = conc
 REPLAYS['conc'] = conc_replay
+
+
+# ---------------------------------------------------------------------------
+# statement faults (C17) and crash points (C18)
+# ---------------------------------------------------------------------------
+def _fault_like(world, seed, params, mode):
+    from psim import fault as F
+    rng = random.Random(seed)
+    knobs = {'allocation_conflict_retry_count': rng.choice([1, 2, 3, 10])}
+    run = F.FaultRun(world, seed, mode, knobs=knobs,
+                     max_points=params.get('max_points'),
+                     pairs=params.get('pairs', 0))
+    findings = run.run()
+    out = {'findings': [], 'requests': run.stats['requests'],
+           'probes': dict(run.stats['probes']), 'faults': run.stats['faults'],
+           'signatures': [], 'states': []}
+    if getattr(run, 'request', None) is None:
+        out['probes']['no_request'] = 1
+        return out
+    R = run.request
+    out['by_kind'] = {R['kind']: 1}
+    out['points'] = run.stats['points']
+    out['outcomes'] = run.stats['outcomes']
+    for k, v in run.stats['outcomes'].items():
+        out['probes']['outcome_' + str(k)] = v
+    out['probes']['fault_points'] = run.stats['points']
+    out['probes']['ordinals'] = len(run.ordinals)
+    # distinct non-trivial: (request kind, statement shape at the fault
+    # point, fault kind, outcome) -- recorded per run as a signature set
+    shape = '|'.join('%s%s' % (o[2][:3], o[3]) for o in run.ordinals)
+    out['signatures'] = ['%s:%s' % (R['kind'], __import__('hashlib').sha256(
+        (shape + str(run.twin_status)).encode()).hexdigest()[:12])]
+    out['sample'] = {
+        'setup_requests': len(run.setup_ops),
+        'request': workload.op_brief(R),
+        'twin_status': run.twin_status,
+        'statements_and_commits': ['%s %s %s' % (o[1], o[2], o[3])
+                                   for o in run.ordinals],
+        'must_retry_ordinals': sorted(run.win_alloc | run.win_dup),
+        'outcomes': run.stats['outcomes'],
+    }
+    for f in findings:
+        f = dict(f)
+        f['sig'] = '%s/%s' % (f['rule'], f.get('sig_extra') or f['kind'])
+        f['replay'] = {
+            'profile': mode,
+            'knobs': knobs,
+            'setup': run.setup_ops,
+            'request': dict(workload.op_brief(R), kind=R['kind']),
+            'faults': f.pop('plan'),
+            'expect': {'rule': f['rule'], 'kind': f['kind']},
+        }
+        out['findings'].append(f)
+    return out
+
+
+def fault(world, seed, params):
+    return _fault_like(world, seed, params, 'fault')
+
+
+def crash(world, seed, params):
+    return _fault_like(world, seed, params, 'crash')
+
+
+def _fault_replay(world, rp, mode):
+    from psim import fault as F
+    setup = []
+    for o in rp['setup']:
+        o = copy.deepcopy(o)
+        o['kind'] = _kind_of(o)
+        setup.append(o)
+    R = copy.deepcopy(rp['request'])
+    R.setdefault('kind', _kind_of(R))
+    run = F.FaultRun(world, 0, mode, knobs=rp.get('knobs'), setup_ops=setup,
+                     request=R, plan=rp['faults'])
+    return run.run()
+
+
+PROFILES['fault'] = fault
+PROFILES['crash'] = crash
+REPLAYS['fault'] = lambda w, rp: _fault_replay(w, rp, 'fault')
+REPLAYS['crash'] = lambda w, rp: _fault_replay(w, rp, 'crash')
+
+
+# ---------------------------------------------------------------------------
+# start-up sync under faults (C17) / name histories with restarts (C19)
+# ---------------------------------------------------------------------------
+def sync_fault(world, seed, params):
+    from psim import sync as S
+    return S.sync_fault(world, seed, params)
+
+
+def names(world, seed, params):
+    from psim import sync as S
+    return S.names_history(world, seed, params)
+
+
+PROFILES['sync_fault'] = sync_fault
+PROFILES['names'] = names
+REPLAYS['sync_fault'] = lambda w, rp: __import__(
+    'psim.sync', fromlist=['x']).sync_fault_replay(w, rp)
+REPLAYS['names'] = lambda w, rp: __import__(
+    'psim.sync', fromlist=['x']).names_replay(w, rp)
